@@ -1,0 +1,31 @@
+//!
+//! Verification hooks: only compiled with `--cfg desync_verif`.
+//!
+//! `point(name)` marks a place between two critical sections. It does nothing unless a test has
+//! installed a callback, in which case the callback can hold the calling thread there so that a
+//! particular interleaving can be replayed deterministically against the real code.
+//!
+
+use std::sync::{Arc, Mutex};
+
+lazy_static! {
+    static ref CALLBACK: Mutex<Option<Arc<dyn Fn(&str) + Send + Sync>>> = Mutex::new(None);
+}
+
+///
+/// Installs (or removes) the callback invoked at every hook point
+///
+pub fn set_callback(callback: Option<Arc<dyn Fn(&str) + Send + Sync>>) {
+    *CALLBACK.lock().unwrap() = callback;
+}
+
+///
+/// Called by the scheduler at the named point
+///
+pub fn point(name: &str) {
+    let callback = { CALLBACK.lock().unwrap().clone() };
+
+    if let Some(callback) = callback {
+        callback(name);
+    }
+}
